@@ -41,7 +41,7 @@ ASSUMPTIONS = [
 
 def gen_cases(tier, seed):
     rng = np.random.default_rng([seed, 112])
-    n = 40 if tier == 'quick' else 500
+    n = 40 if tier == 'quick' else 4000
     cases = []
     for i in range(n):
         cases.append({'seed': int(rng.integers(2 ** 31)),
